@@ -14,10 +14,11 @@ git -C /repo worktree add --detach $WT HEAD -q || exit 2
 INC=""; for f in common hll cpc kll fi theta sampling tuple req quantiles count density tdigest filters; do INC="$INC -I$WT/$f/include"; done
 # rewrite include paths of the agent's worktree, if hard-coded in the demo
 sed "s|/tmp/seed_$ID|$WT|g" $SRC/demo.cpp > $WT/demo.cpp
-g++ -std=gnu++17 -O1 $INC $WT/demo.cpp -o $WT/demo_clean 2> $WT/c1.log || { echo "demo does not compile on clean tree"; tail -5 $WT/c1.log; git -C /repo worktree remove --force $WT; exit 2; }
+XFLAGS=$(python3 -c "import json,sys; m=json.load(open('$SRC/meta.json')); f=m.get('demo_compile_flags',''); print(' '.join(f) if isinstance(f,list) else f)" 2>/dev/null)
+g++ -std=gnu++17 -O1 $XFLAGS $INC $WT/demo.cpp -o $WT/demo_clean 2> $WT/c1.log || { echo "demo does not compile on clean tree"; tail -5 $WT/c1.log; git -C /repo worktree remove --force $WT; exit 2; }
 ( cd $WT && timeout 600 ./demo_clean > out_clean.txt 2>&1 ); RC_CLEAN=$?
 git -C $WT apply $SRC/patch.diff || { echo "patch does not apply to /repo HEAD"; git -C /repo worktree remove --force $WT; exit 2; }
-g++ -std=gnu++17 -O1 $INC $WT/demo.cpp -o $WT/demo_mut 2> $WT/c2.log || { echo "demo does not compile on patched tree"; tail -5 $WT/c2.log; git -C /repo worktree remove --force $WT; exit 2; }
+g++ -std=gnu++17 -O1 $XFLAGS $INC $WT/demo.cpp -o $WT/demo_mut 2> $WT/c2.log || { echo "demo does not compile on patched tree"; tail -5 $WT/c2.log; git -C /repo worktree remove --force $WT; exit 2; }
 ( cd $WT && timeout 600 ./demo_mut > out_mut.txt 2>&1 ); RC_MUT=$?
 echo "demo: clean rc=$RC_CLEAN ($(tail -1 $WT/out_clean.txt | cut -c1-100))  patched rc=$RC_MUT ($(tail -1 $WT/out_mut.txt | cut -c1-160))"
 # existing unit tests of the touched families must still pass with the change
